@@ -51,7 +51,7 @@ TInit == Init /\ l = 1 /\ pend = {} /\ adv = 0
 
 TReset == /\ AtLine("Reset") /\ Consume /\ adv = 0
           /\ alloc' = [c \in Clients |-> NoAlloc] /\ perm' = [c \in Clients |-> NoPerms]
-          /\ chan' = [c \in Clients |-> NoChans] /\ resv' = [c \in Clients |-> 0]
+          /\ chan' = [c \in Clients |-> NoChans] /\ resv' = [c \in Clients |-> 0] /\ veto' = Denied
           /\ out' = {} /\ last' = [a |-> "Init"] /\ pend' = {} /\ adv' = 0
 
 TNote == AtLine("Note") /\ Consume /\ UNCHANGED <<vars, pend, adv>>
